@@ -64,7 +64,8 @@ func TestForcedRapid(t *testing.T) {
 }
 
 // TestForcedGrid: every configuration with n<=4, ante<=2, SB<=2, BB 1..3, dealer
-// blind in {0,2}, bankrolls 1..5, every button position, live/dead small blind.
+// blind in {0,2}, bankrolls 1..5, every button position, live/dead small blind;
+// plus the button-blind / ante-only layouts (SB = BB = 0, dealer blind 0..3).
 func TestForcedGrid(t *testing.T) {
 	st := vlib.NewStats("forced-grid")
 	st.Exhaustive = true
@@ -82,6 +83,14 @@ func TestForcedGrid(t *testing.T) {
 			for i := range bank {
 				bank[i] = int64(x%5) + 1
 				x /= 5
+			}
+			// button-blind and ante-only games: only the dealer holds a position
+			for _, ante := range []int64{0, 1, 2} {
+				for _, db := range []int64{0, 1, 2, 3} {
+					for dealer := 0; dealer < n; dealer++ {
+						cfgs = append(cfgs, &Cfg{N: n, Dealer: dealer, NoBBSeat: true, Ante: ante, DB: db, Limit: "no", Hole: 2, Bank: bank, Deck: deck})
+					}
+				}
 			}
 			for _, ante := range []int64{0, 1, 2} {
 				for _, sb := range []int64{0, 1, 2} {
@@ -253,7 +262,14 @@ func TestShuffle(t *testing.T) {
 	st := vlib.NewStats("shuffle")
 	vlib.RunRapid(t, "hand", "shuffle", st, func(rt *rapid.T) vlib.Outcome {
 		short := rapid.Bool().Draw(rt, "short")
-		deck := rapid.Permutation(baseDeck(short)).Draw(rt, "deck")
+		base := baseDeck(short)
+		if rapid.IntRange(0, 3).Draw(rt, "bigDeck") == 0 {
+			// "all deck contents": jokers and the like - a deck may hold more than 52 cards
+			for i, n := 0, rapid.IntRange(1, 60).Draw(rt, "extraCards"); i < n; i++ {
+				base = append(base, fmt.Sprintf("X%d", i))
+			}
+		}
+		deck := rapid.Permutation(base).Draw(rt, "deck")
 		k := rapid.IntRange(0, len(deck)).Draw(rt, "size")
 		if rapid.IntRange(0, 2).Draw(rt, "full") == 0 {
 			k = len(deck)
